@@ -4,6 +4,7 @@ import MD.Model.Score
 import MD.Model.Ident
 import MD.Model.Config
 import MD.Model.IsoFit
+import MD.Model.Decompose
 /-! JSON-lines driver: one request per line on stdin, one response per line on stdout. -/
 open Lean MD
 
@@ -158,6 +159,36 @@ def handle (j : Json) : Except String Json := do
     | .ok (tx, ty) =>
       pure (Json.mkObj [("tx", ratsToJson tx), ("ty", ratsToJson ty),
         ("pred", ratsToJson (q.map (interp tx ty)))])
+  | "decompose" =>
+    let kind ← getStr j "kind"
+    let h ← getFloat j "h"
+    let α ← getFloat j "level"
+    let elem : Option (Option Functional × Float) ← match j.getObjVal? "elem_f" with
+      | .ok (.str ef) => do
+        let η ← getFloat j "eta"
+        pure (some (Functional.ofString? ef, η))
+      | _ => pure none
+    let fnGiven : Option (Option Functional) := match j.getObjVal? "functional" with
+      | .ok (.str f) => some (Functional.ofString? f)
+      | _ => none
+    let lvGiven : Option Float := match j.getObjVal? "level_given" with
+      | .ok v => floatOfJson? v
+      | _ => none
+    let y ← getFloats j "y"
+    let cols ← match j.getObjVal? "cols" with
+      | .ok (.arr a) => a.toList.mapM (fun c => match floatsOfJson? c with
+          | some l => .ok l
+          | none => .error "bad col")
+      | _ => .error "missing cols"
+    let w ← getOptFloats j "w"
+    match ScoreKind.ofString? kind with
+    | none => throw "unknown score kind"
+    | some k =>
+      let sf : SF Float := { kind := k, h := h, α := α, elem := elem }
+      match decompose sf fnGiven lvGiven y cols w with
+      | .error e => pure (errJson e)
+      | .ok rows => pure (Json.mkObj [("rows", .arr (rows.map (fun r =>
+          floatsToJson [r.mcb, r.dsc, r.unc, r.score])).toArray)])
   | "score" =>
     -- floats travel as bit patterns
     let kind ← getStr j "kind"
